@@ -117,3 +117,13 @@ Theorem page_might_match_sound : forall t pages idx pg data qmin qmax,
   page_might_match t pages idx qmin qmax = SOk (E_CARQUET_OK, true).
 Proof. exact page_might_match_sound_thm. Qed.
 Print Assumptions page_might_match_sound.
+
+(** The hypothesis of filter_exact holds for every file whose present min/max values are at least as wide as the column's
+    type (in particular for all true-bounds statistics) and every probe of that width. *)
+Theorem filter_exact_applies : forall r col op value,
+  col_type r col <> TBoolean -> wf_val (col_type r col) value ->
+  (forall i cs, column_statistics r i col = SOk cs -> cs_has_min_max cs = true ->
+                wf_val (col_type r col) (cs_min cs) /\ wf_val (col_type r col) (cs_max cs)) ->
+  no_fault r col op value.
+Proof. exact no_fault_of_wide_stats. Qed.
+Print Assumptions filter_exact_applies.
